@@ -25,7 +25,10 @@ ASSUMPTIONS = ["labels are ASCII (Python's str.isdigit also accepts non-ASCII di
                "(observed: '-9223372036854775808' gives nan, |c| >= 2^64 raises TypeError)",
                "the empty label list is excluded from the formula (k = 0, n = 0 gives 0*ln 0 = nan in code and model alike)",
                "tree_to_aifeyn is modelled for labels that are basis members, a<digits> or integer literals, forming one complete "
-               "prefix tree; other inputs (labels needing eval, malformed shapes) are outside the model"]
+               "prefix tree; other inputs (labels needing eval, malformed shapes) are outside the model",
+               "a free parameter is a label 'a' followed by at least one ASCII decimal digit (the test of tree_to_aifeyn and labels_to_shape)",
+               "single_function (unchanged by /repo bda8ceb) needs consecutive canonical names a0..a(m-1): its step (4) lists parameters via "
+               "get_max_param, tied statically + by emulation and proved equal to tree_to_aifeyn under Gapless only"]
 MODELLED = ["generator.py:aifeyn_complexity", "generator.py:generate_equations", "generator.py:labels_to_shape",
             "generator.py:is_float", "generator.py:node_to_string", "simplifier.py:get_max_param",
             "simplifier.py:count_params", "fit_single.py:tree_to_aifeyn"]
@@ -113,6 +116,26 @@ def real_tree2(labels, basis):
         return ("exc %s" % type(e).__name__, None, None)
 
 
+def real_single4(labels, basis):
+    """Steps (1) and (4) of single_function, composed from the real functions exactly as fit_single.py:80-83,121-122 does
+    (the statements themselves are tied statically by single_function_call_site)."""
+    from esr.generation import generator, simplifier
+    import warnings
+    try:
+        with warnings.catch_warnings():
+            warnings.simplefilter("ignore")
+            s = generator.labels_to_shape(labels, basis)
+            success, _, tree = generator.check_tree(s)
+            fstr = generator.node_to_string(0, tree, labels)
+            max_param = simplifier.get_max_param([fstr], verbose=False)
+            param_list = ['a%i' % j for j in range(max_param)]
+            return ("ok", float(generator.aifeyn_complexity(labels, param_list)), len(labels))
+    except ValueError:
+        return ("err ValueError", None, None)
+    except Exception as e:
+        return ("exc %s" % type(e).__name__, None, None)
+
+
 # ---------------------------------------------------------------------------------------
 # generators
 # ---------------------------------------------------------------------------------------
@@ -136,7 +159,10 @@ def rand_param_names(rng, m, gapped):
     while True:
         pool = rng.sample([0, 1, 2, 3, 4, 5, 7, 10, 11, 23], m)
         if sorted(pool) != list(range(m)):
-            return ["a%d" % j for j in pool]
+            names = ["a%d" % j for j in pool]
+            if rng.random() < 0.15:
+                names[rng.randrange(m)] = rng.choice(["a01", "a007", "a00"])     # parameter labels, non-canonical spelling
+            return names
 
 
 def rand_int(rng):
@@ -195,15 +221,6 @@ def rand_tree(rng, basis, gapped, intp=0.3, weird=0.0):
         else:
             labels[i] = rng.choice([b for b in basis[0] if b != "a"] or ["x"])
     return labels
-
-
-def f5_predicted(labels):
-    """What the single-tree API computes when it lists only a0..a(M-1), M = first j with 'a<j>' not a substring of any label."""
-    M = 0
-    while any(("a%d" % M) in l for l in labels):
-        M += 1
-    listed = set("a%d" % j for j in range(M))
-    return oracle(labels, lambda l: l in listed)[0]
 
 
 # ---------------------------------------------------------------------------------------
@@ -352,27 +369,25 @@ def stream_maxparam(ctx, N):
 # stream C: tree_to_aifeyn (single-tree API), gapless and gapped parameter names
 # ---------------------------------------------------------------------------------------
 
-def check_single(ctx, labels, basis, gapped):
-    """Property oracle for one call of tree_to_aifeyn; returns (status, value)."""
+def is_gapless(labels):
+    ps = sorted(set(l for l in labels if _PAR_RE.match(l)))
+    return ps == sorted("a%d" % j for j in range(len(ps)))
+
+
+def check_single(ctx, labels, basis):
+    """Property oracle for one call of tree_to_aifeyn (any parameter names, gapped or not); returns (status, value, n)."""
     st, val, n = real_tree2(labels, basis)
     if any(l.startswith("--") or (_INT_RE.match(l) and re.match(r"^-?0[0-9]", l) and set(l.lstrip("-")) != {"0"}) for l in labels):
         return st, val, n          # not integer literals of the property ('--5', '007'): correspondence only
     want, triple = oracle(labels, lambda l: bool(_PAR_RE.match(l)))
     nleaves = sum(1 for l in labels if l not in basis[1] and l not in basis[2])
-    pst, pipeline = real_aifeyn(labels, ["a%d" % j for j in range(max(nleaves, 1 + max([int(l[1:]) for l in labels if _PAR_RE.match(l)] or [0])))])
+    listed = sorted(set("a%d" % j for j in range(nleaves)) | set(l for l in labels if _PAR_RE.match(l)))
+    pst, pipeline = real_aifeyn(labels, listed)
     good = st == "ok" and close(val, want) and n == len(labels) and pst == "ok" and close(val, pipeline)
     if not good:
-        rp = dict(kind="single", labels=labels, basis=basis)
-        what = ("tree_to_aifeyn(%r) = %s %r, formula k ln n + sum ln|c| = %r (k,n,|c|)=%r, aifeyn_complexity with all parameters listed = %r"
-                % (labels, st, val, want, triple, pipeline))
-        if gapped and st == "ok" and close(val, f5_predicted(labels)):
-            ctx.fail("tree_to_aifeyn:gapped-params",
-                     what + " -- non-consecutive parameter names are counted as operators because param_list comes from "
-                            "get_max_param (fit_single.py:232-236; same code in single_function, fit_single.py:80-83,121-122)", rp)
-        elif gapped:
-            ctx.fail("tree_to_aifeyn:gapped-other:" + _short(labels), what, rp)
-        else:
-            ctx.fail("tree_to_aifeyn:" + _short(labels), what, rp)
+        ctx.fail("tree_to_aifeyn:" + _short(labels),
+                 "tree_to_aifeyn(%r) = %s %r, formula k ln n + sum ln|c| = %r (k,n,|c|)=%r, aifeyn_complexity with all parameters listed = %r"
+                 % (labels, st, val, want, triple, pipeline), dict(kind="single", labels=labels, basis=basis))
     return st, val, n
 
 
@@ -381,40 +396,55 @@ def stream_single(ctx, N, Ngap):
     cases = [(["+", "a0", "a2"], BASES["core_maths"], True), (["+", "a1", "2"], BASES["core_maths"], True),
              (["+", "a0", "a10"], BASES["core_maths"], True), (["pow", "x", "007"], BASES["core_maths"], False),
              (["pow", "x", "--5"], BASES["core_maths"], False), (["x"], BASES["core_maths"], False),
-             (["*", "a1", "+", "a0", "-3"], BASES["ext_maths"], False)]
+             (["*", "a1", "+", "a0", "-3"], BASES["ext_maths"], False), (["*", "a10", "pow", "a3", "-2"], BASES["core_maths"], True),
+             (["+", "a01", "a0"], BASES["core_maths"], True)]
     for k in range(N + Ngap):
         gapped = k >= N
         _, basis = rand_basis(rng)
         cases.append((rand_tree(rng, basis, gapped, weird=0.0 if gapped else 0.04), basis, gapped))
     lines = []
-    for labels, basis, _ in cases:
-        toks = ["aifeyn_tree2"]
-        for b in basis:
-            toks += [str(len(b))] + list(b)
-        toks += [str(len(labels))] + labels
-        lines.append(" ".join(toks))
+    for op in ("aifeyn_tree2", "aifeyn_single4"):
+        for labels, basis, _ in cases:
+            toks = [op]
+            for b in basis:
+                toks += [str(len(b))] + list(b)
+            toks += [str(len(labels))] + labels
+            lines.append(" ".join(toks))
     out = common.model(lines)
+    out2, out4 = out[:len(cases)], out[len(cases):]
     bad = 0
-    nfail_gap = 0
-    stats = dict(gapless=0, gapped=0, gapped_differs=0, valueerror=0, with_int=0)
-    for (labels, basis, gapped), line, mo in zip(cases, lines, out):
-        nf = len(ctx.failures)
-        st, val, n = check_single(ctx, labels, basis, gapped)
-        nontriv = any(_PAR_RE.match(l) or _INT_RE.match(l) for l in labels) and len(labels) > 1
-        ctx.case(("single", tuple(labels), json.dumps(basis)), nontrivial=nontriv)
+    stats = dict(gapless=0, gapped=0, gapped_single_function_differs=0, valueerror=0, with_int=0, noncanonical_names=0)
+
+    def same(mo, st, val, n):
         mt = mo.split()
         if st == "ok":
-            ok = len(mt) == 3 and mt[0] == "ok" and close(common.b2f(mt[1]), val) and int(mt[2]) == n
-        else:
-            ok = mo == st
-        if not ok:
+            return len(mt) == 3 and mt[0] == "ok" and close(common.b2f(mt[1]), val) and int(mt[2]) == n
+        return mo == st
+
+    for (labels, basis, _g), line, mo, mo4 in zip(cases, lines, out2, out4):
+        gapless = is_gapless(labels)
+        st, val, n = check_single(ctx, labels, basis)
+        nontriv = any(_PAR_RE.match(l) or _INT_RE.match(l) for l in labels) and len(labels) > 1
+        ctx.case(("single", tuple(labels), json.dumps(basis)), nontrivial=nontriv)
+        if not same(mo, st, val, n):
             bad += 1
             ctx.disagree("corr:tree_to_aifeyn", "%s: code=%s %r model=%s" % (line, st, val, mo))
-        stats["gapped" if gapped else "gapless"] += 1
-        stats["gapped_differs"] += gapped and len(ctx.failures) > nf
+        # single_function, steps (1)+(4)
+        st4, val4, n4 = real_single4(labels, basis)
+        ctx.case(None)
+        if not same(mo4, st4, val4, n4):
+            bad += 1
+            ctx.disagree("corr:single_function-step4", "%s: code=%s %r model=%s" % (line.replace("aifeyn_tree2", "aifeyn_single4"), st4, val4, mo4))
+        if gapless and st == "ok" and (st4 != "ok" or not close(val4, val)):
+            ctx.fail("single_function:" + _short(labels),
+                     "step (4) of single_function gives %s %r for %r (consecutive parameter names) but tree_to_aifeyn gives %r"
+                     % (st4, val4, labels, val), dict(kind="single4", labels=labels, basis=basis))
+        stats["gapped" if not gapless else "gapless"] += 1
+        stats["gapped_single_function_differs"] += (not gapless) and st == "ok" and st4 == "ok" and not close(val, val4)
         stats["valueerror"] += st != "ok"
         stats["with_int"] += any(_INT_RE.match(l) for l in labels)
-    ctx.sample(dict(op=lines[-1], model=out[-1]))
+        stats["noncanonical_names"] += any(_PAR_RE.match(l) and l != "a%d" % int(l[1:]) for l in labels)
+    ctx.sample(dict(op=lines[len(cases) - 1], model=out2[-1]))
     ctx.extra["single_tree_api"] = dict(cases=len(cases), mismatch=bad, **stats)
     return bad
 
@@ -604,18 +634,29 @@ class LineCov(object):
 
 
 def single_function_call_site(ctx):
-    """single_function must obtain its code length exactly as tree_to_aifeyn does (same three statements, `labels` untouched)."""
+    """Static tie of the statements that real_single4 emulates (single_function, steps (1) and (4)) and of the statements
+    of tree_to_aifeyn the model mirrors; `labels`, `max_param`, `param_list` must not be assigned anywhere else."""
     tree = ast.parse(open(os.path.join(ctx.stage, "esr", "fitting", "fit_single.py")).read())
-    want = ["max_param = simplifier.get_max_param([fstr], verbose=verbose)",
-            "param_list = ['a%i' % j for j in range(max_param)]",
-            "aifeyn = generator.aifeyn_complexity(labels, param_list)",
-            "fstr = generator.node_to_string(0, tree, labels)"]
+    want = {
+        "single_function": ["s = generator.labels_to_shape(labels, basis_functions)",
+                            "success, _, tree = generator.check_tree(s)",
+                            "fstr = generator.node_to_string(0, tree, labels)",
+                            "max_param = simplifier.get_max_param([fstr], verbose=verbose)",
+                            "param_list = ['a%i' % j for j in range(max_param)]",
+                            "aifeyn = generator.aifeyn_complexity(labels, param_list)"],
+        "tree_to_aifeyn": ["s = generator.labels_to_shape(labels, basis_functions)",
+                           "success, _, tree = generator.check_tree(s)",
+                           "fstr = generator.node_to_string(0, tree, labels)",
+                           "param_list = [l for l in labels if l.startswith('a') and l[1:].isdigit()]",
+                           "aifeyn = generator.aifeyn_complexity(labels, param_list)"],
+    }
     res = {}
-    for name in ("tree_to_aifeyn", "single_function"):
+    for name, wl in want.items():
         fn = extract.find_def(tree, name)
         stmts = [ast.unparse(n) for n in ast.walk(fn) if isinstance(n, ast.Assign)]
-        missing = [w for w in want if w not in stmts]
-        reassigned = [s for s in stmts if re.match(r"^(labels|max_param|param_list)\b.*=", s) and s not in want]
+        missing = [w for w in wl if w not in stmts]
+        allowed = set(wl) | ({"max_param = simplifier.get_max_param([fstr], verbose=verbose)"} if name == "tree_to_aifeyn" else set())
+        reassigned = [x for x in stmts if re.match(r"^(labels|max_param|param_list|aifeyn)\b[^=]*=[^=]", x) and x not in allowed]
         res[name] = dict(missing=missing, reassigned=reassigned)
         if missing or reassigned:
             ctx.disagree("corr:%s-call-site" % name, "statements %r missing, %r reassigned" % (missing, reassigned))
@@ -643,11 +684,11 @@ def run(ctx):
         _oracle_only(ctx, 6000 * scale)
     ctx.extra["anchored_line_coverage"] = cov.stop()
     if deep:
-        plan = [("core_maths", [1, 2, 3, 4, 5], 1), ("core_maths", [3, 4, 5], 3), ("ext_maths", [1, 2, 3, 4, 5], 1),
-                ("ext_maths", [3, 4, 5], 3), ("keep_duplicates", [1, 2, 3, 4], 1), ("osc_maths", [1, 2, 3, 4], 1),
-                ("base10_maths", [1, 2, 3, 4], 1), ("base_e_maths", [3, 4], 3)]
+        plan = [("core_maths", [1, 2, 3, 4, 5], 1), ("core_maths", [1, 2, 3, 4, 5], 3), ("ext_maths", [1, 2, 3, 4, 5], 1),
+                ("ext_maths", [1, 2, 3, 4, 5], 3), ("keep_duplicates", [1, 2, 3, 4], 1), ("osc_maths", [1, 2, 3, 4], 1),
+                ("base10_maths", [1, 2, 3, 4], 1), ("base_e_maths", [1, 2, 3, 4], 3)]
     else:
-        plan = [("core_maths", [1, 2, 3, 4], 1), ("core_maths", [3, 4], 3), ("ext_maths", [1, 2, 3, 4], 1), ("ext_maths", [3, 4], 3)]
+        plan = [("core_maths", [1, 2, 3, 4], 1), ("core_maths", [1, 2, 3, 4], 3), ("ext_maths", [1, 2, 3, 4], 1), ("ext_maths", [1, 2, 3, 4], 3)]
     if have_model:
         b[3] = stream_libraries(ctx, plan)
     else:
@@ -665,8 +706,8 @@ def _oracle_only(ctx, N):
     rng = ctx.rng
     for k in range(N):
         _, basis = rand_basis(rng)
-        labels = rand_tree(rng, basis, False)
-        check_single(ctx, labels, basis, False)
+        labels = rand_tree(rng, basis, k % 3 == 0)
+        check_single(ctx, labels, basis)
         ctx.case(("single", tuple(labels)), nontrivial=len(labels) > 1)
         params = ["a%d" % j for j in range(5)]
         st, val = real_aifeyn(labels, params)
@@ -706,13 +747,16 @@ def replay(ctx, data):
         return st == st2 and (st != "ok" or close(val, val2))
     if kind == "single":
         c2 = common.Ctx("C08", "quick", 0)
-        labels = rp["labels"]
-        gapped = sorted(set(l for l in labels if _PAR_RE.match(l))) != ["a%d" % j for j in range(len(set(l for l in labels if _PAR_RE.match(l))))]
-        st, val, n = check_single(c2, labels, rp["basis"], gapped)
-        print("tree_to_aifeyn(%r) = %s %r" % (labels, st, val))
+        st, val, n = check_single(c2, rp["labels"], rp["basis"])
+        print("tree_to_aifeyn(%r) = %s %r" % (rp["labels"], st, val))
         for f in c2.failures:
             print("  " + f["what"])
         return not c2.failures
+    if kind == "single4":
+        st, val, n = real_tree2(rp["labels"], rp["basis"])
+        st4, val4, n4 = real_single4(rp["labels"], rp["basis"])
+        print("tree_to_aifeyn(%r) = %s %r ; single_function step (4) = %s %r" % (rp["labels"], st, val, st4, val4))
+        return st4 == st and (st != "ok" or close(val, val4))
     if kind == "library":
         ctx.tmp = ctx.tmp or os.path.dirname(ctx.stage)
         d, res = generate(ctx, rp["run"], [rp["compl"]], rp["P"], "r")
